@@ -30,7 +30,7 @@ I0 == [present |-> FALSE, cfg |-> NoCfg,
        vc |-> {}, st |-> NoStop, halted |-> FALSE,
        burst |-> 0, burstT |-> -1,
        preSince |-> -1,
-       inflight |-> {}, lastEv |-> "", note |-> "", why |-> "", readyAt |-> -1, owes |-> FALSE, cut |-> FALSE, hung |-> {}, verifyAt |-> -1, nbo |-> 0, nrs |-> 0, rnds |-> {}, servedSince |-> 0, hadLid |-> FALSE, reconnAt |-> -1]
+       inflight |-> {}, lastEv |-> "", note |-> "", why |-> "", readyAt |-> -1, owes |-> FALSE, cut |-> FALSE, hung |-> {}, verifyAt |-> -1, nbo |-> 0, nrs |-> 0, rnds |-> {}, appCancel |-> FALSE, servedSince |-> 0, hadLid |-> FALSE, reconnAt |-> -1]
 
 O0 == [scn |-> "", ended |-> TRUE, H |-> 1000000, TTL |-> 3000000, L |-> 0, PT |-> 5000000,
        rec |-> [k \in Keys |-> NoRec], tokens |-> {}, pend |-> {},
@@ -72,11 +72,11 @@ TickInst(o, i, e) ==
       h == x.cfg.h
       dep == x.lostAt >= 0 /\ ~x.cut /\ t > DeposedDeadline(x.lostAt, h)
       cut == x.claim /\ x.failRun >= 1 /\ x.okStart >= 0 /\ ~x.hskip /\ t > CutOffDeadline(x.okStart, h)
-      pre == x.preSince >= 0 /\ t > PreemptDeadline(x.preSince, o.H)
+      pre == x.preSince >= 0 /\ t > PreemptDeadline(x.preSince, o.H) + o.W + 6 * o.L     \* (late notifications delay the takeover by as much)
       \* C10 promptness: a ready, served, takeover-enabled candidate next to a claiming leader whose stored priority is strictly
       \* lower, in fault-free conditions (no fault, no outside writer, latency bound <= H/10) - armed when that begins to hold
       rk == o.rec[x.cfg.group]
-      canPre == /\ x.cfg.tk /\ Cand(o, i) /\ ~o.faulty /\ ~o.hard /\ ~o.outside /\ ~o.slow /\ ~o.connEv /\ ~o.hc /\ 10 * o.L <= o.H
+      canPre == /\ x.cfg.tk /\ Cand(o, i) /\ ~o.faulty /\ ~o.hard /\ ~o.outside /\ ~o.hc /\ 10 * o.L <= o.H
                 /\ rk.live /\ rk.cls = "payload" /\ rk.id \in Ids /\ rk.id # i /\ x.cfg.prio > rk.prio
                 /\ o.I[rk.id].claim /\ o.I[rk.id].ttok = rk.tok
                 /\ (\A op \in o.pend : op.i = i => t - op.at <= 2 * o.L + 1000)
@@ -177,7 +177,7 @@ H_reset(o, e) ==
 
 H_start_call(o, e) ==
   LET x == o.I[e.i] IN
-  R(SetI(o, e.i, [x EXCEPT !.started = TRUE, !.stopped = FALSE, !.halted = FALSE, !.lastTo = "CANDIDATE", !.ready = FALSE, !.graceDue = -1]), {})
+  R(SetI(o, e.i, [x EXCEPT !.started = TRUE, !.stopped = FALSE, !.halted = FALSE, !.lastTo = "CANDIDATE", !.ready = FALSE, !.graceDue = -1, !.appCancel = FALSE]), {})
 
 H_stop_call(o, e) ==
   LET x == o.I[e.i]
@@ -390,7 +390,8 @@ H_promote(o, e) ==
 
 H_ctx_done(o, e) ==
   LET x == o.I[e.i]
-      v == IF x.claim /\ x.termLive /\ e.term = x.term /\ x.stopping = 0
+      \* (not when the application itself cancelled the context it had given to Start: every context derived from it is done)
+      v == IF x.claim /\ x.termLive /\ e.term = x.term /\ x.stopping = 0 /\ ~x.appCancel
            THEN {V("C19", "promotion_context_cancelled_while_leading", e.i, e)} ELSE {}
   IN R(SetI(o, e.i, [x EXCEPT !.ctxOpen = @ \ {e.term}]), v)
 
@@ -558,6 +559,7 @@ Handle(o, e) ==
   ELSE IF ev = "closed" THEN H_closed(o, e)
   ELSE IF ev = "script_miss"          \* a model behaviour being replayed could not be followed: the rest of the run is not paced by the script
        THEN R([o EXCEPT !.faulty = TRUE, !.hard = TRUE, !.I = [i \in Ids |-> [o.I[i] EXCEPT !.cut = TRUE]]], {})
+  ELSE IF ev = "start_ctx_cancelled" THEN R(SetI(o, e.i, [o.I[e.i] EXCEPT !.appCancel = TRUE, !.halted = TRUE, !.ready = FALSE]), {})
   ELSE IF ev = "partition" THEN H_partition(o, e)
   ELSE IF ev = "heal" THEN H_heal(o, e)
   ELSE R(o, {})
